@@ -63,7 +63,7 @@ try:
         # isolated copy of /verif
         if os.path.exists(vcopy):
             shutil.rmtree(vcopy)
-        sh(['rsync', '-a', '--exclude', '.git', '--exclude', 'replays', '/verif/', vcopy + '/'])
+        sh(['rsync', '-a', '--exclude', '.git', '--exclude', 'replays', os.environ.get('VERIF_SRC', '/verif').rstrip('/') + '/', vcopy + '/'])
         res['checks'] = {}
         for p in props:
             env = dict(os.environ, TXDBUS_REPO=wt, VERIF_SEED=os.environ.get('VERIF_SEED', '0'))
